@@ -345,6 +345,15 @@ def run(tier):
               'the output file (or the candidate handed to the command) is '
               'written from an exhausted iterator, i.e. empty, although the '
               'accepted candidate was complete')
+    from .. import memo
+
+    def _memo_rule(chk, prog):
+        chk.rule('C01.R10', 'memoised functions on the candidate path: the cached value depends only on the cache key')
+        memo.report(chk, prog, 'C01.R10', 'memoised functions on the candidate path',
+                    lambda m, q: m.name in ('tmpfiles', 'nodeio', 'checker'),
+                    'forked workers and threads inherit / share the table, so two checking processes can be handed the same candidate file name or a stale rendering: a candidate is accepted on the strength of another candidate')
+
+    chk.guard(_memo_rule, chk, prog)
     extra = None
     if tier == 'thorough':
         from .. import selftest
